@@ -993,9 +993,13 @@ class Engine:
 
     def bi_getattr(self, path, e):
         v = self.ev(path, e.args[0])
-        if not isinstance(e.args[1], ast.Constant):
-            raise EngineError("getattr with non-constant name")
-        name = e.args[1].value
+        if isinstance(e.args[1], ast.Constant):
+            name = e.args[1].value
+        else:
+            nv = self.ev(path, e.args[1])
+            if not (isinstance(nv, SConst) and isinstance(nv.py, str)):
+                raise EngineError("getattr with non-constant name")
+            name = nv.py
         if len(e.args) == 2:
             return self.getfield(path, v, name, e)
         default = self.ev(path, e.args[2])
@@ -1567,7 +1571,13 @@ class Engine:
             if fn == "reversed":
                 inner = self.iter_source(path, it_e.args[0], ordn)
                 return RevIter(inner)
+        if isinstance(it_e, ast.Call) and isinstance(it_e.func, ast.Attribute) and it_e.func.attr in ("items", "keys", "values") and not it_e.args:
+            d = self.ev(path, it_e.func.value)
+            if isinstance(d, SDict):
+                return DictIter(self, path, d, it_e.func.attr, ordn)
         v = self.ev(path, it_e)
+        if isinstance(v, SDict):
+            return DictIter(self, path, v, "keys", ordn)
         if isinstance(v, SSlice):
             return StrIter(v)
         if isinstance(v, SList):
@@ -1638,6 +1648,30 @@ class ListIter:
 
     def element(self, eng, path, k):
         return eng.elem_val(path, self.lst, self.seq[k])
+
+
+class DictIter:
+    """iteration over a dict: an arbitrary sequence KS of keys of the dict *as it was when the loop started*; every element read
+    carries the ground fact has[KS[k]].  (That KS enumerates every key exactly once is Python's semantics of dict iteration;
+    contracts state results as folds over KS.)"""
+
+    def __init__(self, eng, path, d, what, ordn):
+        ks, vs = path.heap._dsorts(d)
+        self.d, self.what = d, what
+        self.seq = fresh(f"KS{ordn}", z3.SeqSort(ks))
+        self.has0, self.val0 = path.heap.dict_has(d), path.heap.dict_val(d)
+
+    def length(self, path):
+        return z3.Length(self.seq)
+
+    def element(self, eng, path, k):
+        key = self.seq[k]
+        path.assume(z3.Select(self.has0, key))
+        kv = SStr(key) if self.d.key == "str" else SRef(key)
+        vv = eng.dict_value(path, self.d, z3.Select(self.val0, key))
+        if self.what == "items":
+            return STuple([kv, vv])
+        return kv if self.what == "keys" else vv
 
 
 class ConstIter:
